@@ -29,6 +29,7 @@ import (
 	metav1 "k8s.io/apimachinery/pkg/apis/meta/v1"
 	"k8s.io/apimachinery/pkg/util/intstr"
 	"sigs.k8s.io/controller-runtime/pkg/client"
+	gatewayv1 "sigs.k8s.io/gateway-api/apis/v1"
 
 	"github.com/jcmoraisjr/haproxy-ingress/pkg/controller/services"
 	convtypes "github.com/jcmoraisjr/haproxy-ingress/pkg/converters/types"
@@ -215,7 +216,7 @@ func emitDyn(static bool, toks string) {
 // ---------------------------------------------------------------- reference sites
 
 type siteCase struct {
-	site string // tls tlstcp authtls authtlstcp securecrt secureca authsecret authurl authurlfe
+	site string // tls tlstcp gwcert authtls authtlstcp securecrt secureca authsecret authurl authurlfe
 	src  string // ing | svc : the object that carries the annotation
 	form string // n own other file secother secown
 	set  string // static + crt ca pw svc, each 0|1
@@ -229,7 +230,7 @@ func (sc siteCase) args() string {
 // kind of object the site refers to: crt ca pw svc
 func siteKind(site string) string {
 	switch site {
-	case "tls", "tlstcp", "securecrt":
+	case "tls", "tlstcp", "gwcert", "securecrt":
 		return "crt"
 	case "authtls", "authtlstcp", "secureca":
 		return "ca"
@@ -261,6 +262,12 @@ func siteValue(sc siteCase, dir string) string {
 		return "b/" + k
 	case "file":
 		return "file://" + filepath.Join(dir, "local-"+k)
+	case "fileb":
+		// the controller's own copy of namespace b's secret (exists once b's ingress was converted)
+		if k == "ca" {
+			return "file://" + filepath.Join(dir, "cacrt", "ca_b_ca.pem")
+		}
+		return "file://" + filepath.Join(dir, "crt", "b_"+k+".pem")
 	case "secother":
 		return "secret://b/" + k
 	case "secown":
@@ -293,6 +300,31 @@ func ingress(ns, name, host, svc string, ann map[string]string, tlsSecret *strin
 	return ing
 }
 
+func gatewayObjs(certName string) []client.Object {
+	port := gatewayv1.PortNumber(8080)
+	host := gatewayv1.Hostname("a.local")
+	mode := gatewayv1.TLSModeTerminate
+	same := gatewayv1.NamespacesFromSame
+	return []client.Object{
+		&gatewayv1.GatewayClass{ObjectMeta: metav1.ObjectMeta{Name: "gwc", Generation: 1},
+			Spec: gatewayv1.GatewayClassSpec{ControllerName: gatewayv1.GatewayController(xnsworld.ControllerName)}},
+		&gatewayv1.Gateway{ObjectMeta: metav1.ObjectMeta{Namespace: "a", Name: "gw", Generation: 1},
+			Spec: gatewayv1.GatewaySpec{GatewayClassName: "gwc", Listeners: []gatewayv1.Listener{{
+				Name: "https", Port: 443, Protocol: gatewayv1.HTTPSProtocolType, Hostname: &host,
+				AllowedRoutes: &gatewayv1.AllowedRoutes{Namespaces: &gatewayv1.RouteNamespaces{From: &same}},
+				TLS: &gatewayv1.GatewayTLSConfig{Mode: &mode,
+					CertificateRefs: []gatewayv1.SecretObjectReference{{Name: gatewayv1.ObjectName(certName)}}},
+			}}}},
+		&gatewayv1.HTTPRoute{ObjectMeta: metav1.ObjectMeta{Namespace: "a", Name: "rt", Generation: 1},
+			Spec: gatewayv1.HTTPRouteSpec{
+				CommonRouteSpec: gatewayv1.CommonRouteSpec{ParentRefs: []gatewayv1.ParentReference{{Name: "gw"}}},
+				Hostnames:       []gatewayv1.Hostname{host},
+				Rules: []gatewayv1.HTTPRouteRule{{BackendRefs: []gatewayv1.HTTPBackendRef{{
+					BackendRef: gatewayv1.BackendRef{BackendObjectReference: gatewayv1.BackendObjectReference{Name: "svc", Port: &port}}}}}},
+			}},
+	}
+}
+
 type siteResult struct {
 	dump    string
 	target  string // own foreign file none
@@ -305,7 +337,7 @@ type siteResult struct {
 // runSite builds one world and converts it. withForeign=false removes the one foreign object the
 // site could refer to (the Secret of the site's kind in namespace b, or Service b/authsvc).
 func runSite(sc siteCase, withForeign bool) (res siteResult) {
-	env := xnsworld.NewEnv(xnsworld.Settings{AllowCrossNS: sc.set[0] == '1'})
+	env := xnsworld.NewEnv(xnsworld.Settings{AllowCrossNS: sc.set[0] == '1', GatewayV1: sc.site == "gwcert"})
 	defer env.Close()
 	ctx := context.Background()
 	p := xnsworld.GetPEMs()
@@ -375,6 +407,13 @@ func runSite(sc siteCase, withForeign bool) (res siteResult) {
 		aAnn[pfx+"tcp-service-port"] = "7000"
 	}
 	aIng := ingress("a", "ing", "a.local", "svc", aAnn, aTLS)
+	var aObjs []client.Object
+	if sc.site == "gwcert" {
+		// a Gateway in namespace a whose HTTPS listener names the certificate, and its route
+		aObjs = gatewayObjs(siteValue(sc, env.Dir))
+	} else {
+		aObjs = []client.Object{aIng}
+	}
 
 	defer func() {
 		if r := recover(); r != nil {
@@ -387,15 +426,22 @@ func runSite(sc siteCase, withForeign bool) (res siteResult) {
 		env.Sync(&convtypes.ChangedObjects{GlobalConfigMapDataNew: cm})
 		env.Commit()
 		env.Cli.Reads()
-		add(aIng)
-		env.Sync(&convtypes.ChangedObjects{
-			GlobalConfigMapDataCur: cm,
-			IngressesAdd:           []*networking.Ingress{aIng},
-			Links:                  convtypes.TrackingLinks{convtypes.ResourceIngress: []string{"a/ing"}},
-			Objects:                []string{"add/Ingress:a/ing"},
-		})
+		add(aObjs...)
+		if sc.site == "gwcert" {
+			// Gateway API changes always ask for a full sync (handlers have full: true)
+			env.Sync(&convtypes.ChangedObjects{GlobalConfigMapDataCur: cm, NeedFullSync: true,
+				Links:   convtypes.TrackingLinks{convtypes.ResourceGateway: []string{"a/gw"}},
+				Objects: []string{"add/Gateway:a/gw"}})
+		} else {
+			env.Sync(&convtypes.ChangedObjects{
+				GlobalConfigMapDataCur: cm,
+				IngressesAdd:           []*networking.Ingress{aIng},
+				Links:                  convtypes.TrackingLinks{convtypes.ResourceIngress: []string{"a/ing"}},
+				Objects:                []string{"add/Ingress:a/ing"},
+			})
+		}
 	} else {
-		add(aIng)
+		add(aObjs...)
 		env.Cli.Reads()
 		env.Sync(&convtypes.ChangedObjects{GlobalConfigMapDataNew: cm})
 	}
@@ -490,7 +536,7 @@ func dumpA(env *xnsworld.Env, sc siteCase) (dump, target string) {
 	}
 	if host := env.HCfg.Hosts().FindHost("a.local"); host != nil {
 		fmt.Fprintf(&sb, "host tls=%s ca=%s crl=%s verify=%v;", env.Rel(host.TLS.TLSFilename), env.Rel(host.TLS.CAFilename), env.Rel(host.TLS.CRLFilename), host.TLS.CAVerify)
-		if sc.site == "tls" {
+		if sc.site == "tls" || sc.site == "gwcert" {
 			target = classify(env, env.Rel(host.TLS.TLSFilename))
 		}
 		if sc.site == "authtls" {
@@ -516,7 +562,7 @@ func dumpA(env *xnsworld.Env, sc siteCase) (dump, target string) {
 		}
 		for _, bp := range b.Paths {
 			tg := authTarget(bp.AuthExternal.AuthBackendName)
-			fmt.Fprintf(&sb, "path userlist=%s realm=%s authext deny=%v to=%s path=%s;", bp.AuthHTTP.UserlistName, bp.AuthHTTP.Realm, bp.AuthExternal.AlwaysDeny, tg, bp.AuthExternal.AuthPath)
+			fmt.Fprintf(&sb, "path userlist=%s realm=%s authext deny=%v to=%s path=%s;", strings.ReplaceAll(bp.AuthHTTP.UserlistName, env.Dir, "$DIR"), bp.AuthHTTP.Realm, bp.AuthExternal.AlwaysDeny, tg, bp.AuthExternal.AuthPath)
 			var us []string
 			if ul := env.HCfg.Userlists().Find(bp.AuthHTTP.UserlistName); ul != nil {
 				for _, u := range ul.Users {
@@ -569,7 +615,7 @@ func emitSite(sc siteCase) {
 	stat("site_"+sc.site+"_"+strings.SplitN(impl, ";", 2)[0], 1)
 }
 
-var allSites = []string{"tls", "tlstcp", "authtls", "authtlstcp", "securecrt", "secureca", "authsecret", "authurl", "authurlfe"}
+var allSites = []string{"tls", "tlstcp", "gwcert", "authtls", "authtlstcp", "securecrt", "secureca", "authsecret", "authurl", "authurlfe"}
 
 func siteSources(site string) []string {
 	switch site {
@@ -583,7 +629,10 @@ func siteForms(site string) []string {
 	if siteKind(site) == "svc" {
 		return []string{"n", "own", "other"}
 	}
-	return []string{"n", "own", "other", "file", "secother", "secown"}
+	if siteKind(site) == "pw" {
+		return []string{"n", "own", "other", "file", "secother", "secown"}
+	}
+	return []string{"n", "own", "other", "file", "fileb", "secother", "secown"}
 }
 
 func allSettings() []string {
@@ -606,6 +655,10 @@ func corpus() {
 	// file:// in spec.tls[].secretName
 	emitSite(siteCase{"tls", "ing", "file", "00000", false})
 	emitSite(siteCase{"tlstcp", "ing", "file", "00000", false})
+	emitSite(siteCase{"gwcert", "ing", "file", "00000", false})
+	emitSite(siteCase{"gwcert", "ing", "other", "00000", false})
+	// file:// pointing at the controller's own copy of another namespace's CA bundle
+	emitSite(siteCase{"authtls", "ing", "fileb", "00000", true})
 	// each key opens only its kind
 	emitSite(siteCase{"tls", "ing", "other", "00110", false})
 	emitSite(siteCase{"authtls", "ing", "other", "01011", false})
